@@ -245,8 +245,8 @@ def run_tree(job, acc):
                   f'delete_in(d, {p}) gave {d3}, expected {exp_del}', case)
             # update_in: only the addressed subtree differs
             d4 = copy.deepcopy(plain)
-            res4 = update_in(d4, p, lambda cur: 'UPD')
-            exp4 = _ref_assoc(before, p, 'UPD')
+            res4 = update_in(d4, p, lambda cur: ('UPD', cur))
+            exp4 = _ref_assoc(before, p, ('UPD', cur if ok else {}))
             if res4 != exp4:
                 V('C17.update_in', 'differs-outside-addressed-subtree',
                   f'update_in(d, {p}) gave {res4}, expected {exp4}', case)
